@@ -433,15 +433,19 @@ class Netlist:
                 self.path = []
 
         checked = set()
-        busy = set()
+        # Maps each net currently being traversed to the net that is actually on the traversal stack
+        # for it. For cells whose comb edges are not per-bit, all output nets of the cell are marked
+        # busy together and stand for the one output net through which the cell was entered, so that
+        # a cycle re-entering the cell through a different output bit is closed at that net.
+        busy = {}
 
         def traverse(net):
             if net in checked:
                 return None
 
             if net in busy:
-                return Cycle(net)
-            busy.add(net)
+                return Cycle(busy[net])
+            busy[net] = net
 
             cycle = None
             extra_nets = []
@@ -458,7 +462,7 @@ class Netlist:
                     extra_nets = [extra_net for extra_net in cell.output_nets(net.cell) if extra_net != net]
                     for extra_net in extra_nets:
                         assert extra_net not in checked
-                        busy.add(extra_net)
+                        busy[extra_net] = net
                 for src, src_loc in cell.comb_edges_to(net.bit):
                     cycle = traverse(src)
                     if cycle is not None:
@@ -478,10 +482,10 @@ class Netlist:
                     msg.append(f"  {src_loc}: {obj} bit {bit}\n")
                 raise CombinationalCycle("".join(msg))
 
-            busy.remove(net)
+            del busy[net]
             checked.add(net)
             for extra_net in extra_nets:
-                busy.remove(extra_net)
+                del busy[extra_net]
                 checked.add(extra_net)
             return cycle
 
